@@ -235,6 +235,28 @@ func (d *Document) writeJSONValue(buf *bytes.Buffer, value Value) error {
 
 // variableDefaultValue returns the (constant) default value of the variable definition with the given name
 func (d *Document) variableDefaultValue(name string) (Value, bool) {
+	// Only the operations that are (still) root nodes count: normalizing for one operation name takes
+	// the other operations of the document out of the root nodes, but their variable definitions stay
+	// in the document and may declare the same name with another default.
+	hasRootOperation := false
+	for _, node := range d.RootNodes {
+		if node.Kind != NodeKindOperationDefinition {
+			continue
+		}
+		hasRootOperation = true
+		if !d.OperationDefinitions[node.Ref].HasVariableDefinitions {
+			continue
+		}
+		for _, i := range d.OperationDefinitions[node.Ref].VariableDefinitions.Refs {
+			if d.VariableDefinitions[i].DefaultValue.IsDefined && d.VariableDefinitionNameString(i) == name &&
+				!d.ValueContainsVariable(d.VariableDefinitions[i].DefaultValue.Value) {
+				return d.VariableDefinitions[i].DefaultValue.Value, true
+			}
+		}
+	}
+	if hasRootOperation {
+		return Value{}, false
+	}
 	for i := range d.VariableDefinitions {
 		if d.VariableDefinitions[i].DefaultValue.IsDefined && d.VariableDefinitionNameString(i) == name &&
 			!d.ValueContainsVariable(d.VariableDefinitions[i].DefaultValue.Value) {
